@@ -10,6 +10,8 @@ pub fn run_case(kind: &str, fields: Vec<String>) -> Vec<String> {
             "open".to_string()
         }],
         "progx" => progx::run(fields),
+        "session" => session(fields),
+        "world" => crate::on_fresh_thread(move || world(&fields)),
         "libs" => crate::on_fresh_thread(move || libs(&fields)),
         "imports" => crate::on_fresh_thread(move || imports(&fields)),
         "evalfile" => crate::on_fresh_thread(move || evalfile(&fields)),
@@ -121,4 +123,77 @@ fn libs(fields: &[String]) -> Vec<String> {
     }
     std::fs::remove_dir_all(&base).ok();
     out
+}
+
+/// `world`: several interpreter instances ON ONE THREAD. Two exist initially; fields are steps
+/// `<index>:<text>` (evaluate the text on that instance) or `new` (create another instance with
+/// `new_with_stdlib`, which must succeed whatever the others have evaluated).
+fn world(fields: &[String]) -> Vec<String> {
+    use ruschm::interpreter::Interpreter;
+    let mut insts: Vec<Interpreter<f32>> = vec![Interpreter::new_with_stdlib(), Interpreter::new_with_stdlib()];
+    let mut out = vec![];
+    for f in fields {
+        if f == "new" {
+            match std::panic::catch_unwind(Interpreter::<f32>::new_with_stdlib) {
+                Ok(it) => {
+                    insts.push(it);
+                    out.push("new-ok".to_string());
+                }
+                Err(p) => out.push(crate::panic_message(p)),
+            }
+            continue;
+        }
+        let (idx, text) = f.split_once(':').unwrap();
+        let idx: usize = idx.parse().unwrap();
+        match insts.get_mut(idx) {
+            Some(it) => out.push(crate::eval_form(it, text)),
+            None => out.push("X no-instance".to_string()),
+        }
+    }
+    out
+}
+
+/// `session`: fields = mode, then submissions. What a REPL session with these submissions must
+/// write to standard output if it "equals evaluating the same forms one after another on one
+/// interpreter": per submission the program's own output, then the Display of the value of its
+/// last form and a newline (nothing for definitions and Void), errors as `E kind` separately.
+fn session(fields: Vec<String>) -> Vec<String> {
+    use ruschm::values::Value;
+    use std::io::{Read, Seek, SeekFrom, Write};
+    use std::os::unix::io::AsRawFd;
+    extern "C" {
+        fn dup(fd: i32) -> i32;
+        fn dup2(a: i32, b: i32) -> i32;
+        fn close(fd: i32) -> i32;
+    }
+    crate::on_fresh_thread(move || {
+        let mut it = progx::new_interpreter(&fields[0]);
+        let dir = std::env::var("HX_TMP").unwrap_or_else(|_| "/verif/build/tmp".to_string());
+        let path = format!("{}/session-{}-{:?}", dir, std::process::id(), std::thread::current().id());
+        let mut tmp = std::fs::OpenOptions::new().read(true).write(true).create(true).truncate(true).open(&path).unwrap();
+        std::fs::remove_file(&path).ok();
+        std::io::stdout().flush().ok();
+        let saved = unsafe { dup(1) };
+        unsafe { dup2(tmp.as_raw_fd(), 1) };
+        let mut errs = vec![];
+        for f in &fields[1..] {
+            match std::panic::catch_unwind(std::panic::AssertUnwindSafe(|| it.eval(f.chars()))) {
+                Ok(Ok(Some(Value::Void))) | Ok(Ok(None)) => (),
+                Ok(Ok(Some(v))) => println!("{}", v),
+                Ok(Err(e)) => errs.push(format!("E {}", crate::err_kind(&e))),
+                Err(p) => errs.push(crate::panic_message(p)),
+            }
+        }
+        std::io::stdout().flush().ok();
+        unsafe {
+            dup2(saved, 1);
+            close(saved);
+        }
+        let mut bytes = Vec::new();
+        tmp.seek(SeekFrom::Start(0)).ok();
+        tmp.read_to_end(&mut bytes).ok();
+        let mut out = vec![format!("O {}", crate::esc(&String::from_utf8_lossy(&bytes)))];
+        out.extend(errs);
+        out
+    })
 }
